@@ -562,6 +562,15 @@ func decorate(r *Rng, n *Node, max int, skip map[string]bool) *Node {
 	if len(al) == 0 {
 		return n
 	}
+	// mj-class and css-class are accepted everywhere but are not part of the per-component tables
+	if max > 0 && strings.HasPrefix(n.Tag, "mj-") && n.Tag != "mj-class" && n.Tag != "mj-all" {
+		if r.Bool(1, 5) {
+			n.Set("mj-class", genValue(r, "mj-class", "string"))
+		}
+		if r.Bool(1, 5) {
+			n.Set("css-class", genValue(r, "css-class", "string"))
+		}
+	}
 	k := r.Intn(max + 1)
 	for i := 0; i < k; i++ {
 		a := al[r.Intn(len(al))]
@@ -602,7 +611,8 @@ func genLeaf(r *Rng, o *RichOpts) *Node {
 	n := &Node{Tag: tag}
 	switch tag {
 	case "mj-text":
-		n.Text = r.Pick([]string{o.sent("Hello"), o.sent("Hi") + " <b>" + o.sent("bold") + "</b> tail", "<p>" + o.sent("para") + "</p>", o.sent("a") + "<br/>" + o.sent("b")})
+		n.Text = r.Pick([]string{o.sent("Hello"), o.sent("Hi") + " <b>" + o.sent("bold") + "</b> tail", "<p>" + o.sent("para") + "</p>", o.sent("a") + "<br/>" + o.sent("b"),
+			`<span class="ka">` + o.sent("styled") + `</span> <a class="kb" href="http://x/l">` + o.sent("link") + `</a>`})
 	case "mj-button":
 		n.Text = o.sent("Click")
 		n.Set("href", "http://x/go")
@@ -746,11 +756,21 @@ func genHead(r *Rng, o *RichOpts) *Node {
 				}
 			}
 		}
-		for _, cn := range []string{"m1", "m2"} {
-			if r.Bool(1, 2) {
+		for ci, cn := range []string{"m1", "m2"} {
+			if r.Bool(2, 3) {
 				c := &Node{Tag: "mj-class"}
 				c.Set("name", cn)
-				c.Set(r.Pick([]string{"color", "font-size", "padding", "font-family", "background-color"}), r.Pick([]string{"#010203", "18px", "7px", "Lato", "#eeeeee"}))
+				// the two classes overlap on purpose: same attribute, different values; both may define a css-class
+				c.Set("color", []string{"#010203", "#a0b0c0"}[ci])
+				if r.Bool(1, 2) {
+					c.Set("font-size", []string{"18px", "11px"}[ci])
+				}
+				if r.Bool(1, 2) {
+					c.Set(r.Pick([]string{"padding", "font-family", "background-color"}), r.Pick([]string{"7px", "Lato", "#eeeeee"}))
+				}
+				if r.Bool(1, 2) {
+					c.Set("css-class", []string{"kc1", "kc2"}[ci])
+				}
 				at.Kids = append(at.Kids, c)
 			}
 		}
